@@ -46,6 +46,15 @@ theories/Infer/Inv.vos theories/Infer/Inv.vok theories/Infer/Inv.required_vos: t
 theories/Graph/Closure.vo theories/Graph/Closure.glob theories/Graph/Closure.v.beautified theories/Graph/Closure.required_vo: theories/Graph/Closure.v 
 theories/Graph/Closure.vio: theories/Graph/Closure.v 
 theories/Graph/Closure.vos theories/Graph/Closure.vok theories/Graph/Closure.required_vos: theories/Graph/Closure.v 
+theories/Bag/Union.vo theories/Bag/Union.glob theories/Bag/Union.v.beautified theories/Bag/Union.required_vo: theories/Bag/Union.v 
+theories/Bag/Union.vio: theories/Bag/Union.v 
+theories/Bag/Union.vos theories/Bag/Union.vok theories/Bag/Union.required_vos: theories/Bag/Union.v 
+theories/Bag/Bag.vo theories/Bag/Bag.glob theories/Bag/Bag.v.beautified theories/Bag/Bag.required_vo: theories/Bag/Bag.v theories/Bag/Union.vo
+theories/Bag/Bag.vio: theories/Bag/Bag.v theories/Bag/Union.vio
+theories/Bag/Bag.vos theories/Bag/Bag.vok theories/Bag/Bag.required_vos: theories/Bag/Bag.v theories/Bag/Union.vos
+theories/Bag/BagTy.vo theories/Bag/BagTy.glob theories/Bag/BagTy.v.beautified theories/Bag/BagTy.required_vo: theories/Bag/BagTy.v theories/Base/Hier.vo theories/Base/Ty.vo theories/Sub/Match.vo theories/Sub/SubSpec.vo theories/Sub/SubProofs.vo theories/Bag/Union.vo theories/Bag/Bag.vo
+theories/Bag/BagTy.vio: theories/Bag/BagTy.v theories/Base/Hier.vio theories/Base/Ty.vio theories/Sub/Match.vio theories/Sub/SubSpec.vio theories/Sub/SubProofs.vio theories/Bag/Union.vio theories/Bag/Bag.vio
+theories/Bag/BagTy.vos theories/Bag/BagTy.vok theories/Bag/BagTy.required_vos: theories/Bag/BagTy.v theories/Base/Hier.vos theories/Base/Ty.vos theories/Sub/Match.vos theories/Sub/SubSpec.vos theories/Sub/SubProofs.vos theories/Bag/Union.vos theories/Bag/Bag.vos
 props/C01.vo props/C01.glob props/C01.v.beautified props/C01.required_vo: props/C01.v theories/Base/Hier.vo theories/Base/Ty.vo theories/Sub/Match.vo theories/Sub/SubSpec.vo theories/Sub/SubProofs.vo
 props/C01.vio: props/C01.v theories/Base/Hier.vio theories/Base/Ty.vio theories/Sub/Match.vio theories/Sub/SubSpec.vio theories/Sub/SubProofs.vio
 props/C01.vos props/C01.vok props/C01.required_vos: props/C01.v theories/Base/Hier.vos theories/Base/Ty.vos theories/Sub/Match.vos theories/Sub/SubSpec.vos theories/Sub/SubProofs.vos
@@ -76,3 +85,6 @@ props/C09.vos props/C09.vok props/C09.required_vos: props/C09.v theories/Graph/C
 props/C04.vo props/C04.glob props/C04.v.beautified props/C04.required_vo: props/C04.v theories/Base/Hier.vo theories/Base/Ty.vo theories/Sub/Match.vo theories/Sub/SubSpec.vo theories/Infer/Store.vo theories/Infer/Engine.vo theories/Infer/Run.vo theories/Infer/Witness.vo theories/Infer/Check.vo
 props/C04.vio: props/C04.v theories/Base/Hier.vio theories/Base/Ty.vio theories/Sub/Match.vio theories/Sub/SubSpec.vio theories/Infer/Store.vio theories/Infer/Engine.vio theories/Infer/Run.vio theories/Infer/Witness.vio theories/Infer/Check.vio
 props/C04.vos props/C04.vok props/C04.required_vos: props/C04.v theories/Base/Hier.vos theories/Base/Ty.vos theories/Sub/Match.vos theories/Sub/SubSpec.vos theories/Infer/Store.vos theories/Infer/Engine.vos theories/Infer/Run.vos theories/Infer/Witness.vos theories/Infer/Check.vos
+props/C20.vo props/C20.glob props/C20.v.beautified props/C20.required_vo: props/C20.v theories/Base/Hier.vo theories/Base/Ty.vo theories/Sub/Match.vo theories/Sub/SubSpec.vo theories/Sub/SubProofs.vo theories/Bag/Union.vo theories/Bag/Bag.vo theories/Bag/BagTy.vo
+props/C20.vio: props/C20.v theories/Base/Hier.vio theories/Base/Ty.vio theories/Sub/Match.vio theories/Sub/SubSpec.vio theories/Sub/SubProofs.vio theories/Bag/Union.vio theories/Bag/Bag.vio theories/Bag/BagTy.vio
+props/C20.vos props/C20.vok props/C20.required_vos: props/C20.v theories/Base/Hier.vos theories/Base/Ty.vos theories/Sub/Match.vos theories/Sub/SubSpec.vos theories/Sub/SubProofs.vos theories/Bag/Union.vos theories/Bag/Bag.vos theories/Bag/BagTy.vos
